@@ -383,7 +383,7 @@ func finish(t *rapid.T, z *zm.Zone, nrender int) zoneCase {
 
 func genZoneCase(t *rapid.T) zoneCase {
 	o := genOpts()
-	o.BigGenerate = pbt.Thorough() && rapid.IntRange(0, 19).Draw(t, "big") == 19
+	o.BigGenerate = pbt.Thorough() && rapid.IntRange(0, 99).Draw(t, "big") == 99
 	z := zm.GenZone(t, o)
 	return finish(t, z, rapid.IntRange(2, 3).Draw(t, "nrender"))
 }
